@@ -55,10 +55,10 @@ ASSUMPTIONS = [
 MIN_EVENTS = {
     'quick': {'oracle_evals': 150000, 'history_ops': 5000, 'fresh_store_views': 15000, 'roundtrips': 4032,
               'crash_points_line': 180, 'crash_points_write': 100, 'crash_points_fs': 80,
-              'crash_fired': 380, 'crash_points_update': 180, 'crash_points_delete': 80,
+              'crash_fired': 380, 'crash_points_update': 180, 'crash_points_delete': 70,
               'crash_points_delete_all': 60, 'crash_states_inspected': 380, 'recovery_updates': 380,
               'strace_runs': 5, 'strace_renames_onto_final': 4},
-    'thorough': {'oracle_evals': 2000000, 'history_ops': 70000, 'fresh_store_views': 200000, 'roundtrips': 4032,
+    'thorough': {'oracle_evals': 1500000, 'history_ops': 40000, 'fresh_store_views': 120000, 'roundtrips': 4032,
                  'crash_points_line': 1100, 'crash_points_write': 4000, 'crash_points_fs': 480,
                  'crash_fired': 5500, 'crash_points_update': 3500, 'crash_points_delete': 800,
                  'crash_points_delete_all': 1000, 'crash_states_inspected': 5500, 'recovery_updates': 5500,
@@ -1260,7 +1260,7 @@ async def strace_case(case, r):
 def plan(tier, seed):
     cases = []
     quick = tier == 'quick'
-    nh = 48 if quick else 320
+    nh = 48 if quick else 200
     for i in range(nh):
         cases.append({'kind': 'history', 'seed': seed * 100003 + i, 'histories': 12 if quick else 25})
     total = len(roundtrip_combos())
